@@ -205,6 +205,8 @@ def run(ctx):
                             rid_n = int(mid.group(1))
                             if after == before + 1 and rid_n != before and not name.startswith("type_"):
                                 wrong = True
+                            if rid_n == before and after == before:
+                                wrong = True        # the next unused id was handed out but stays 'unused': it will be handed out again
                         if wrong:
                             confirmed = (mode, real)
                             break
